@@ -1045,6 +1045,13 @@ def gen_cases(rng, tier):
                 spec = gen_spec(rng, cls, d)
                 for op in gen_ops(rng, spec, d):
                     yield dict(k="wf", wf=spec, **op)
+    # --- ramps with an end point (and hence a clipping bound) exactly at zero, from either side: the
+    #     line `slope * (d - 1) + start` seldom rounds back to exactly 0, so only the clip keeps the
+    #     samples inside [start, stop] (seeded change C16-clip-zero-upper-bound)
+    for d in DURS + BIG:
+        for a in (-TWO_PI, -12.5, -7.0, -0.1, 3.3, 0.7):
+            for lo, hi in ((a, 0.0), (0.0, a), (a, -0.0)):
+                yield dict(k="wf", op="samples", wf=dict(c="ramp", d=d, a=lo, b=hi))
     # --- malformed stream: rejected constructors
     for spec in [dict(c="const", d=0, v=1.0), dict(c="const", d=-3, v=1.0), dict(c="ramp", d=0, a=0.0, b=1.0),
                  dict(c="custom", xs=[]), dict(c="blackman", d=0, area=1.0), dict(c="kaiser", d=5, area=1.0, beta=-1.0),
